@@ -212,4 +212,36 @@ Theorem a_request_independent req1 req2 ct :
   a_run open c key iv info req1 ct = a_run open c key iv info req2 ct.
 Proof. rewrite !a_machine_is_spec. reflexivity. Qed.
 
+(* memory: pending input and pending output together never exceed two encrypted chunks, however long the stream is *)
+Lemma a_fill_bound s :
+  lenN (inbuf s) + lenN (outb s) <= 2 * (c + TAGLEN) ->
+  lenN (inbuf (fillA s)) + lenN (outb (fillA s)) <= 2 * (c + TAGLEN).
+Proof.
+  intros Hb. unfold a_fill. destruct (failedb s); [exact Hb|].
+  destruct (negb (a_is_nil (outb s)) || doneb s) eqn:Eskip; [exact Hb|].
+  assert (Ho : outb s = []).
+  { destruct (outb s); [reflexivity|]. cbn in Eskip. discriminate. }
+  rewrite Ho, lenN_nil in Hb.
+  set (ec := c + TAGLEN) in *. set (to_read := 2 * ec - lenN (inbuf s)).
+  set (piece := takeN to_read (asrc s)). set (bufx := inbuf s ++ piece).
+  assert (Hbl : lenN bufx <= 2 * ec).
+  { unfold bufx. rewrite lenN_app. unfold piece. rewrite lenN_takeN. unfold to_read. lia. }
+  destruct (lenN piece <? to_read).
+  - destruct (lenN bufx <? TAGLEN); [cbn; lia|].
+    destruct (dec_pieces (length (takeN (lenN bufx - TAGLEN) bufx)) c key iv info (idx s) (takeN (lenN bufx - TAGLEN) bufx)) as [[pt n]|] eqn:Ed; [|cbn; lia].
+    destruct (open key (nonce_of iv n) (final_ad info (wr s + lenN pt)) (dropN (lenN bufx - TAGLEN) bufx)); [|cbn; lia].
+    cbn [inbuf outb]. pose proof (dec_pieces_len _ _ _ _ _ Ed) as Hl. rewrite lenN_takeN in Hl. cbn. lia.
+  - destruct (open key (nonce_of iv (idx s)) info (takeN ec bufx)) as [pt|] eqn:Eo; [|cbn; lia].
+    cbn [inbuf outb]. pose proof (open_len _ _ _ _ _ Eo) as Hl. rewrite lenN_takeN in Hl.
+    rewrite lenN_dropN. unfold TAGLEN in *. lia.
+Qed.
+
+Theorem a_take_bound n s :
+  lenN (inbuf s) + lenN (outb s) <= 2 * (c + TAGLEN) ->
+  lenN (inbuf (fst (takeA n s))) + lenN (outb (fst (takeA n s))) <= 2 * (c + TAGLEN).
+Proof.
+  intros Hb. pose proof (a_fill_bound s Hb) as Hf. unfold a_take.
+  destruct (failedb (fillA s)); cbn [fst inbuf outb]; [exact Hf|]. rewrite lenN_dropN. lia.
+Qed.
+
 End MachineProofs.
